@@ -34,11 +34,35 @@ def substituteSite (members : List Str) (fresh : Nat) (s : Site) : List Site :=
   let head := prepareSubstituted fresh s
   head :: members.map fun m => { head with name := m }
 
+/-- the handler over a class, `mem n` = the members of the group headed by the element the attr `n`
+refers to (`[]` for a local element or a head without members) -/
+def substituteWith (mem : Str → List Str) (ss : List Site) : List Site :=
+  ss.flatMap fun s => substituteSite (mem s.name) (1000 + s.index) s
+
 /-- the handler over a class: `refs` = the attrs that are references to global elements (only those
 have a user type that can head a substitution group) -/
 def substituteAll (pairs : List (Str × Str)) (refs : List Str) (ss : List Site) : List Site :=
-  ss.flatMap fun s =>
-    if refs.contains s.name then substituteSite (membersOf pairs (pairs.length + 1) s.name) (1000 + s.index) s
-    else [s]
+  substituteWith (fun n => if refs.contains n then membersOf pairs (pairs.length + 1) n else []) ss
+
+/-- the FLATTEN handlers that touch occurrences, in container order: `CalculateAttributePaths`,
+`UpdateAttributesEffectiveChoice`, `AddAttributeSubstitutions`, `MergeAttributes` -/
+def occursSubst (mem : Str → List Str) (ss : List Site) : List Site :=
+  mergeDuplicates (substituteWith mem (effectiveChoice (calculatePaths ss)))
+
+/-! ### Spec: the content model a schema with substitution groups stands for -/
+
+mutual
+/-- every element reference whose element heads a group with members is the choice between the
+head and the members, with the reference's occurrence range (XSD part 1, 3.9.4 / 3.3.6: wherever
+the head may appear, a member may appear instead) -/
+def substP (mem : Str → List Str) : Particle → Particle
+  | .elem n mn mx =>
+    if (mem n).isEmpty then .elem n mn mx else .choice mn mx ((n :: mem n).map (.elem · 1 1))
+  | .seq mn mx ps => .seq mn mx (substPList mem ps)
+  | .choice mn mx ps => .choice mn mx (substPList mem ps)
+def substPList (mem : Str → List Str) : List Particle → List Particle
+  | [] => []
+  | p :: ps => substP mem p :: substPList mem ps
+end
 
 end Xs.Gen
